@@ -227,7 +227,7 @@ int mon_allocfail(const mon_args_t *a) {
       run_child(a, sc, op, i, idx, out, sizeof out, &st, &cnt);
       char site[160], key[400];
       site_of(out, site, sizeof site);
-      int san = strstr(out, "AddressSanitizer") || strstr(out, "runtime error:");
+      int san = strstr(out, "ERROR: AddressSanitizer") || strstr(out, "runtime error:");
       int diag = strstr(out, "returned NULL") || strstr(out, "malloc failed") || strstr(out, "realloc failed") || strstr(out, "alloc failed");
       const char *kind = NULL;
       if (strstr(out, "HX-RETURNED")) {
